@@ -32,23 +32,23 @@ P = {
          "State partition and wiring: nothing reachable from a group's scan writes shared state; every lookup, lister and cloud group is keyed by the group's own options; only the two documented conditions leave the group loop.", "§4 C12"),
  "C13": ("other", "unit (dimension) analysis of every store into Resource fields and constructor arguments + dominance-ordered composition phases + commutative-fold recogniser + rational-function normal form of the percent formula",
          "Units, per-pod composition order, commutative totals over full range loops and the percent formula are the documented ones; Quantity arithmetic and float rounding are not decided.", "§4 C13"),
- "C14": ("other", "return-site path conditions of each filter compared with the documented predicate (truth-table equivalence / atom classification) + existential-search and full-traversal loop recognisers",
+ "C14": ("other", "quantified reading of each filter as returned by its constructor (search loops, slices.Contains*, closures and bound method values as ∃ atoms) compared with the documented predicate by truth-table equivalence; structural atom classification as fallback; full-traversal loop recognisers; lister wiring",
          "Each filter computes the documented predicate for all pod/node shapes at once (not a small-scope enumeration); listers apply exactly the filter.", "§4 C14"),
- "C15": ("other", "value provenance (fresh Get → Update), store census on the fetched object, struct-literal field terms, search-loop exits vs Update reachability, slice-removal idiom recogniser, writer/reader agreement",
+ "C15": ("other", "value provenance (fresh Get → Update), store census on the fetched object, struct-literal field terms, search-loop exits vs Update reachability, slice-removal idiom recogniser, writer/reader agreement, method-set census of the typed client interfaces (live Get)",
          "Only Spec.Taints of the freshly fetched node changes, by exactly one appended/removed escalator taint with the right key/value/effect; an existing taint is never re-stamped.", "§4 C15"),
  "C16": ("other", "accept-set extraction from the validator's closure calls + propositional/linear entailment of each invariant + sibling cross-check of accessors + gate dominance + struct-tag vs documented-key table agreement",
          "The accept set entails every stated invariant; validation gates every configuration with a fatal exit; json tags = documented keys (one recorded finding: scale_up_cool_down_timeout has no field).", "§4 C16"),
- "C17": ("other", "linear-fact entailment before every write-reaching call + struct-literal field provenance + head/tail chunking-loop recogniser",
+ "C17": ("other", "linear-fact entailment before every write-reaching call + struct-literal field provenance + head/tail chunking-loop recogniser + cache typestate (fresh target)",
          "No AWS write before δ ≥ 1 ∧ TargetSize+δ ≤ MaxSize; one absolute SetDesiredCapacity(TargetSize+δ); fleet request total = min = δ; every acquired id is attached in exactly one call of ≤ 20 ids.", "§4 C17"),
  "C18": ("other", "must-call-before-error-exit on the CFG with the argument checked against the chunking invariant + index-stepping loop recogniser with per-iteration accumulator + error-propagation chain + CFG reachability from may-exit calls to attach / terminate calls",
          "Every error exit of the attach step terminates exactly the not-yet-attached ids, the success exit none; terminate calls carry ≤ 1000 ids of the current batch; the failure reaches ScaleUp, which then takes no lock; no process exit precedes a pending attach / terminate.", "§4 C18"),
- "C19": ("other", "linear pre-check entailment + existential-search recognisers + dominance (cloud before Kubernetes) + type-preserving error propagation per frame",
+ "C19": ("other", "linear pre-check entailment + existential-search recognisers + dominance (cloud before Kubernetes) + CFG reachability from the failure edge (a refused terminate stops the request) + type-preserving error propagation per frame",
          "Terminate only after both minimum pre-checks and the membership test of that node, the matched instance with decrement; not-in-group is returned unchanged by every frame up to log.Fatal.", "§4 C19"),
  "C20": ("other", "panic-site census over the RunOnce-reachable call graph (index/slice bounds by linear entailment, optional-value dereferences by path-condition implication or a reviewed table) + stop census + loop-shape census + allocation-size bounds (Fourier–Motzkin projection onto held quantities, lifted through caller frames) + library-precondition table (metric label arity, Counter.Add sign, ticker interval, mutex pairing)",
          "Every potentially panicking operation on scan paths is guarded or reviewed; the ways a scan can stop the process are enumerated (three recorded findings); every loop is structurally bounded; make() sizes are non-negative and bounded by held quantities; library preconditions hold at every call site. Liveness inside client-go / the AWS SDK is not decided.", "§4 C20"),
  "C09": ("proof", "path-condition implication + interprocedural provenance of action arguments",
          "No action site can receive a node that was cordoned in the scan's snapshot, and capacity/counts come from the untainted list only.", "§4 C09"),
- "C10": ("proof", "path-condition implication + loop-shape recogniser + who-may-call",
+ "C10": ("proof", "path-condition implication + loop-shape recogniser + who-may-call + no-transform / listed-object write census",
          "The grace reaper's append implies ¬protected(n); protected is the documented existential; protection neither breaks the loop nor is consulted elsewhere.", "§4 C10"),
  "C11": ("proof", "call-graph cut (who-may-write) + path-condition implication against the inlined dry-mode predicate",
          "Every external write is behind an action site and every action site / reaper append is guarded by ¬dry(g) on all paths.", "§4 C11"),
